@@ -98,7 +98,7 @@ def demo(sid, path):
 
 
 def do_confirm(sids):
-    wt = '/tmp/wt_confirm'
+    wt = '/tmp/wt_confirm_%d' % os.getpid()   # one scratch worktree per invocation: concurrent runs must not share
     wt_make(wt)
     try:
         ok, log = build(wt)
@@ -142,10 +142,10 @@ def do_confirm(sids):
             c['confirmed'] = bool(c.get('patch_applies') and c.get('patched_build_ok') and c.get('patched_ctest_ok')
                                   and c.get('unchanged_demo_exit') == 0 and c.get('patched_demo_exit') not in (0, None)
                                   and (not needs_par or c.get('patched_ctest_par_ok')))
-            c['commands'] = ['git worktree add /tmp/wt_confirm HEAD; cmake -G Ninja (RelWithDebInfo, MANIFOLD_PAR=OFF, TEST=ON, CBIND=ON); cmake --build',
-                             'sh build_demo.sh /tmp/wt_confirm   (unchanged: expect exit 0)',
+            c['commands'] = ['git worktree add /tmp/wt_confirm_<pid> HEAD; cmake -G Ninja (RelWithDebInfo, MANIFOLD_PAR=OFF, TEST=ON, CBIND=ON); cmake --build',
+                             'sh build_demo.sh /tmp/wt_confirm_<pid>   (unchanged: expect exit 0)',
                              'git apply patch.diff; cmake --build; ctest -j10 --timeout 900   (expect all pass)',
-                             'sh build_demo.sh /tmp/wt_confirm   (patched: expect non-zero exit)']
+                             'sh build_demo.sh /tmp/wt_confirm_<pid>   (patched: expect non-zero exit)']
             m['confirmation'] = c
             save(sid, m)
             print(sid, 'confirmed' if c['confirmed'] else 'NOT CONFIRMED', json.dumps({k: v for k, v in c.items() if k.endswith('_exit') or k.endswith('_ok') or k.startswith('patched_ctest')}))
@@ -156,8 +156,8 @@ def do_confirm(sids):
 
 
 def do_detect(sids, props=None, tier='quick'):
-    wt = '/tmp/wt_detect'
-    bd = '/tmp/vb_detect'
+    wt = '/tmp/wt_detect_%d' % os.getpid()
+    bd = '/tmp/vb_detect_%d' % os.getpid()
     wt_make(wt)
     try:
         for sid in sids:
